@@ -4,6 +4,7 @@ import (
 	"context"
 	"errors"
 	"fmt"
+	"runtime"
 	"sort"
 	"strings"
 	"sync"
@@ -198,6 +199,9 @@ func oneLoopRun(r *Rng, out *AreaOut, idx int) (string, string, bool, error) {
 	var exitErr error
 	exited := false
 	var echo []string
+	var heldRelease func() error
+	var heldWG sync.WaitGroup
+	defer heldWG.Wait()
 	commAtStore := uint64(0)
 	lastStoreCount := 0
 	for !exited {
@@ -326,7 +330,19 @@ func oneLoopRun(r *Rng, out *AreaOut, idx int) (string, string, bool, error) {
 							}
 							oc = append(oc, opCoq(o, native, raw))
 						}
-						changed, err := applyAppFixed(env, native, clock, uint64(info.LastTxnID)+1, ops)
+						var changed []bool
+						var err error
+						if (p == "load.begin" || (p == "send.begin" && !native)) && r.Chance(50) {
+							// the application's transaction is still open when the loop continues and commits a little
+							// later, while Lightning Stream is already waiting for the write lock
+							var rel func() error
+							changed, rel, err = applyAppHeld(env, native, clock, uint64(info.LastTxnID)+1, ops)
+							if err == nil {
+								heldRelease = rel
+							}
+						} else {
+							changed, err = applyAppFixed(env, native, clock, uint64(info.LastTxnID)+1, ops)
+						}
 						if err != nil {
 							cancel()
 							return "", "", false, fmt.Errorf("app commit: %w", err)
@@ -392,6 +408,17 @@ func oneLoopRun(r *Rng, out *AreaOut, idx int) (string, string, bool, error) {
 			// an own transaction that leaves it unchanged until the next *.after_txn yield recorded nothing
 			if i2, err := env.Info(); err == nil {
 				prevLast = i2.LastTxnID
+			}
+			if heldRelease != nil {
+				prevLast++ // the open transaction commits before the loop's next write transaction can start
+				rel := heldRelease
+				heldRelease = nil
+				heldWG.Add(1)
+				go func() {
+					defer heldWG.Done()
+					time.Sleep(15 * time.Millisecond)
+					_ = rel()
+				}()
 			}
 			contCh <- struct{}{}
 		case exitErr = <-done:
@@ -551,7 +578,44 @@ func oneLoopRun(r *Rng, out *AreaOut, idx int) (string, string, bool, error) {
 // applyAppFixed commits one application transaction whose native headers were pre-computed with txn id `tid`
 func applyAppFixed(env *lmdb.Env, native bool, ts, tid uint64, ops []appOp) (changed []bool, err error) {
 	changed = make([]bool, len(ops))
-	err = env.Update(func(txn *lmdb.Txn) error {
+	err = env.Update(func(txn *lmdb.Txn) error { return applyAppOps(txn, native, ts, tid, ops, changed) })
+	return changed, err
+}
+
+// applyAppHeld is applyAppFixed for an application whose write transaction is still OPEN when the sync loop
+// moves on: the writes are made now, the commit happens when release() is called. Whatever Lightning Stream
+// does meanwhile, its next write transaction can only start after that commit (LMDB has one writer), so for the
+// loop the commit belongs to this yield point.
+func applyAppHeld(env *lmdb.Env, native bool, ts, tid uint64, ops []appOp) (changed []bool, release func() error, err error) {
+	changed = make([]bool, len(ops))
+	ready := make(chan error, 1)
+	rel := make(chan struct{})
+	done := make(chan error, 1)
+	go func() {
+		runtime.LockOSThread()
+		defer runtime.UnlockOSThread()
+		txn, err := env.BeginTxn(nil, 0)
+		if err != nil {
+			ready <- err
+			return
+		}
+		if err := applyAppOps(txn, native, ts, tid, ops, changed); err != nil {
+			txn.Abort()
+			ready <- err
+			return
+		}
+		ready <- nil
+		<-rel
+		done <- txn.Commit()
+	}()
+	if err := <-ready; err != nil {
+		return nil, nil, err
+	}
+	return changed, func() error { close(rel); return <-done }, nil
+}
+
+func applyAppOps(txn *lmdb.Txn, native bool, ts, tid uint64, ops []appOp, changed []bool) error {
+	{
 		for i, op := range ops {
 			dbi, err := txn.OpenDBI(op.DBI, lmdb.Create|op.Flags)
 			if err != nil {
@@ -600,8 +664,7 @@ func applyAppFixed(env *lmdb.Env, native bool, ts, tid uint64, ops []appOp) (cha
 			}
 		}
 		return nil
-	})
-	return changed, err
+	}
 }
 
 func genRemoteDBIs(r *Rng, clock uint64) ([]snapDBI, uint32) {
